@@ -192,6 +192,7 @@ func (fr *Frame) execInstr(ins ssa.Instruction, st *State) {
 		es := u.sortOf(et)
 		r.heapSet(st, key, store(r.heapGet(st, key), ref, Term{fmt.Sprintf("((as const %s) %s)", arraySort("Int", es), literalize(u.zeroOf(et).S)), arraySort("Int", es)}))
 		fr.set(x, app("Slice", "mk_slice", ref, intLit(0), ln, cp))
+		r.recordSliceArr(fr.vals[x], ref)
 	case *ssa.Slice:
 		fr.execSlice(x, st)
 	case *ssa.MakeInterface:
@@ -600,8 +601,20 @@ func (r *Run) mapLen(st *State, mt *types.Map, m Term) Term {
 	return sel(r.heapGet(st, r.eng.heapKeyMapLen(mt)), m)
 }
 
+func (r *Run) recordSliceArr(v Val, ref Term) {
+	if t, ok := v.(Term); ok {
+		if r.sliceArr == nil {
+			r.sliceArr = map[string]string{}
+		}
+		r.sliceArr[t.S] = ref.S
+	}
+}
+
 func (r *Run) mapStore(st *State, mt *types.Map, m, k, v Term) {
 	hk, vk, lk := r.eng.heapKeyMapHas(mt), r.eng.heapKeyMapVal(mt), r.eng.heapKeyMapLen(mt)
+	for _, key := range []string{hk, vk, lk} {
+		r.noteWrite(key, m.S)
+	}
 	H, V, L := r.heapGet(st, hk), r.heapGet(st, vk), r.heapGet(st, lk)
 	had := sel(sel(H, m), k)
 	newLen := ite(had, sel(L, m), app("Int", "+", sel(L, m), intLit(1)))
@@ -612,6 +625,9 @@ func (r *Run) mapStore(st *State, mt *types.Map, m, k, v Term) {
 
 func (r *Run) mapDelete(st *State, mt *types.Map, m, k Term) {
 	hk, lk := r.eng.heapKeyMapHas(mt), r.eng.heapKeyMapLen(mt)
+	for _, key := range []string{hk, lk} {
+		r.noteWrite(key, m.S)
+	}
 	H, L := r.heapGet(st, hk), r.heapGet(st, lk)
 	had := sel(sel(H, m), k)
 	newLen := ite(had, app("Int", "-", sel(L, m), intLit(1)), sel(L, m))
@@ -752,6 +768,7 @@ func (fr *Frame) execSlice(x *ssa.Slice, st *State) {
 		r.heapSet(st, key, store(r.heapGet(st, key), ref, arrv))
 		r.noteAssume("array sliced into a fresh backing store (writes through the slice do not reach the array variable)")
 		fr.set(x, app("Slice", "mk_slice", ref, lo, app("Int", "-", hi, lo), app("Int", "-", intLit(at.Len()), lo)))
+		r.recordSliceArr(fr.vals[x], ref)
 	default:
 		unsupported("slice of %s", x.X.Type())
 	}
